@@ -664,7 +664,7 @@ pub fn run(cfg: &Config) -> i32 {
         }
     }
     // large texts: stamp packing beyond 65535 fields (quick: 70k once; thorough: three sizes)
-    for nfields in cfg.tier.pick(vec![1000usize, 70_000], vec![1000, 65_535, 65_537, 70_000]) {
+    for nfields in cfg.tier.pick(vec![1000usize, 5000, 70_000], vec![1000, 4095, 4097, 5000, 33_000, 65_535, 65_537, 70_000]) {
         let mut s = String::with_capacity(nfields * 12);
         for i in 0..nfields {
             s.push_str(&format!(":20:R{i}\n"));
